@@ -1,6 +1,46 @@
-(** Entry points for C09 (stub: replaced by the property's own entry file). *)
-From Coq Require Import ZArith List.
-From GV Require Import Base.Val.
+(** Entry points for C09 (closest-genomes list).
+
+    op 1  (n ds)                 -> closest_list n ds                    list of indices
+    op 2  ds                     -> argmin_first ds                      result index
+    op 3  (n ds taxa gtaxon)     -> result_item                          result ((i d m) ((i d m) ...))
+    op 11 (n ds l)               -> closest_listb n ds l                 bool   (spec checker)
+    op 12 (ds taxa gtaxon)       -> wf_db                                bool
+    ds: list of integer keys; taxa: list of (parent? threshold?) with options as () / (x);
+    gtaxon: taxon index of every reference genome; m: option taxon index. *)
+From Coq Require Import ZArith List Bool.
+From GV Require Import Base.Val Base.CSem Model.C09 Spec.C09 Entry.Codec.
+Import ListNotations.
 Open Scope Z_scope.
 
-Definition dispatch (op : Z) (a : val) : val := vbad.
+Definition to_taxon (v : val) : option nat * option Z :=
+  match v with
+  | VL [p; t] => (to_opt to_nat p, to_opt to_Z t)
+  | _ => (None, None)
+  end.
+
+Definition to_db (taxa gt : val) : refdb :=
+  {| db_taxa := map to_taxon (to_list taxa); db_gtaxon := to_nats gt |}.
+
+Definition ventry (e : nat * Z * option nat) : val :=
+  VL [vnat (fst (fst e)); VI (snd (fst e)); vopt vnat (snd e)].
+
+Definition dispatch (op : Z) (a : val) : val :=
+  match op with
+  | 1 => match a with VL [VI n; ds] => vlist vnat (closest_list (Z.to_nat n) (to_Zs ds)) | _ => vbad end
+  | 2 => vres vnat (argmin_first (to_Zs a))
+  | 3 => match a with
+         | VL [VI n; ds; taxa; gt] =>
+           vres (fun r => VL [ventry (fst r); vlist ventry (snd r)])
+                (result_item (to_db taxa gt) (Z.to_nat n) (to_Zs ds))
+         | _ => vbad
+         end
+  | 11 => match a with
+          | VL [VI n; ds; l] => vbool (closest_listb (Z.to_nat n) (to_Zs ds) (to_nats l))
+          | _ => vbad
+          end
+  | 12 => match a with
+          | VL [ds; taxa; gt] => vbool (wf_db (to_db taxa gt) (to_Zs ds))
+          | _ => vbad
+          end
+  | _ => vbad
+  end.
